@@ -93,3 +93,21 @@ def neutralAtBreaks (s : Str) : Bool :=
   o.2.isEmpty && o.1.all fun (c, act) => c != '\n' || act.isEmpty
 
 end Cells
+
+namespace Cells
+open Str Ansi
+
+/-- A clean cell: well-formed, and its character is printable or a newline. -/
+def Cell.clean (c : Cell) : Bool := c.ok && (c.ch = '\n' || !Uni.isControl c.ch)
+
+/-- Clean styled text: the rendering of clean cells.  This is what may reach the terminal:
+    printable characters, newlines, and servitor's own SGR sequences around single characters. -/
+def Clean (s : Str) : Prop := ∃ cs : List Cell, (∀ c ∈ cs, c.clean = true) ∧ s = render cs
+
+/-- The configured colours are well-formed SGR parameter tails (C19 proves this of every accepted
+    configuration). -/
+def ColorsOk (c : Colors) : Prop :=
+  sgrOk ("38;2;".toList ++ c.primary) = true ∧ sgrOk ("38;2;".toList ++ c.error) = true ∧
+  sgrOk ("48;2;".toList ++ c.highlight) = true ∧ sgrOk ("48;2;".toList ++ c.code) = true
+
+end Cells
